@@ -352,7 +352,7 @@ func runC13(ctx Ctx) int {
 		items = append(items, item{loFromVec(c13Space, vec), c13Space.Labels(vec)})
 		return true
 	})
-	deadline := devx.Deadline(map[string]time.Duration{"quick": 4 * time.Minute, "thorough": 20 * time.Minute}[run.Tier])
+	deadline := devx.Deadline(map[string]time.Duration{"quick": 4 * time.Minute, "thorough": 15 * time.Minute}[run.Tier])
 	_, complete := parallel(len(items), deadline, func(i int) {
 		it := items[i]
 		v := c13Judge(it.p)
@@ -464,7 +464,7 @@ func runC13(ctx Ctx) int {
 	{
 		cb, cs := 1, 90
 		if run.Tier == "thorough" {
-			cb, cs = 2, 1200
+			cb, cs = 2, 180
 		}
 		runConc(run, "C13", cb, cs)
 	}
